@@ -17,6 +17,8 @@ import (
 
 type HeapDecl struct {
 	key, name, sort string
+	kind            string     // "H", "A", "MV", "G" or "" (no references tracked)
+	T               types.Type // pointee / element / value type
 }
 
 type Engine struct {
